@@ -19,6 +19,15 @@ func init() {
 	prop("C12", []string{"R-LITTRUNC", "R-GATE"},
 		"the literal-count and literal-length limits (MaxLiterals, MaxLiteralLen, cross-product limit) can only shrink what a prefilter promises, never make a non-covering set look covering or a truncated literal look complete, and a partial set never gates a search (R-LITTRUNC, R-GATE).",
 		"equality of results under DFA on/off, state limits, ASCII optimisation, CPU feature masking: value-level and declined.")
+	prop("C19", []string{"R-DISTINGUISH", "R-ASTWALK", "R-RECURSION"},
+		"every fast-path family reads the pattern datum its answer depends on (lazy flag, case folding, repeat bounds) per the frozen table of fast paths (R-DISTINGUISH); every contains-detector that routes patterns away from engines that cannot express them descends into every operator with children (R-ASTWALK); the specialised searchers' recursion is visited-gated (R-RECURSION).",
+		"that the accepted fragment equals the implemented fragment beyond the data read (e.g. what may follow or sit between recognised parts), span arithmetic of each searcher.")
+	prop("C09", []string{"R-EXHAUST"},
+		"the NFA compiler's operator switch covers every operator regexp/syntax can emit and rejects unknown ones with an error (R-EXHAUST a).",
+		"error text equality, CompilePOSIX flags, nesting-depth parity, LiteralPrefix/SubexpNames values: not yet decided by a rule here.")
+	prop("C11", []string{"R-EXHAUST"},
+		"every per-strategy dispatcher (IsMatch, Find at zero/non-zero, FindIndices, FindIndicesAt, with-state) either handles every strategy or falls to the universal NFA helper (R-EXHAUST b).",
+		"the relational equalities themselves (Match <=> FindIndex != nil, prefix property of FindAll, Count = len(FindAll)).")
 	prop("C05", []string{"R-RECURSION", "R-EPOCH"},
 		"every search-time recursion (call-graph cycle reachable from a search root) is guarded by a visited test-and-set gate on every path to the recursive call (R-RECURSION); the visited epoch of the backtracker is never advanced inside a start-position loop that calls the gated recursion, and every advance handles wrap-around (R-EPOCH).",
 		"the constant K and every value-dependent loop count (candidate loops of the reverse strategies, prefilter rescans); polynomial compile time. This is the weakest claim relative to the property: it decides two necessary conditions of the visited-table bound only.")
